@@ -330,3 +330,29 @@ func (e *Engine) pikeSearchWithSlotTableAt(haystack []byte, at int, mode nfa.Sea
 	defer e.putSearchState(state)
 	return state.pikevm.SearchWithSlotTableAt(haystack, at, mode)
 }
+
+// asciiBTSearch and asciiBTIsMatch run the ASCII-only backtracker on a pooled
+// per-goroutine visited table. Its Search/IsMatch convenience methods use one
+// table embedded in the backtracker itself, which concurrent searches on a
+// shared Regex would corrupt.
+
+func (e *Engine) asciiBTSearch(haystack []byte) (int, int, bool) {
+	state := e.getSearchState()
+	defer e.putSearchState(state)
+	bt := state.backtracker
+	if bt == nil {
+		bt = nfa.NewBacktrackerState()
+	}
+	bt.Longest = e.longest
+	return e.asciiBoundedBacktracker.SearchWithState(haystack, bt)
+}
+
+func (e *Engine) asciiBTIsMatch(haystack []byte) bool {
+	state := e.getSearchState()
+	defer e.putSearchState(state)
+	bt := state.backtracker
+	if bt == nil {
+		bt = nfa.NewBacktrackerState()
+	}
+	return e.asciiBoundedBacktracker.IsMatchWithState(haystack, bt)
+}
